@@ -33,8 +33,14 @@ def bounds(tier):
     return {'max_len': 7 if tier == 'quick' else 8, 'key_classes': 5, 'inner_pipelines': list(INNERS)}
 
 
+ENTRY_SPECS = [[['group_by', 'mod3', [['to_list']]]], [['group_by', 'mod3', [['count', True]]]], [['group_by', 'mod2', [['group_by', 'mod3', [['to_list']]]]]]]
+ENTRY_OTHER = [['group_by', 'mod2', [['scan', 'add', '0']]]]
+ENTRY_ITEMS = [[0, 1, 3, 4, 2], [5, 6, 8]]
+
+
 def units(tier):
     out = []
+    out.append({'fam': 'entry'})
     L = 7 if tier == 'quick' else 8
     n = 8 if tier == 'quick' else 32
     for inner in INNERS:
@@ -62,6 +68,12 @@ def units(tier):
 
 
 def cases(unit):
+    if unit.get('fam') == 'entry':
+        # the operator reached through the `sources=` entry point of with_store: two live sources share one store
+        for si in range(len(ENTRY_SPECS)):
+            for order in spaces.interleavings([len(ENTRY_ITEMS[0]), len(ENTRY_ITEMS[1])]):
+                yield {'fam': 'entry', 'spec': si, 'order': order}
+        return
     sh, n = unit['shard']
     fam = unit['fam']
     if fam == 'top':
@@ -107,6 +119,14 @@ def viol(fam, sym, detail):
 
 
 def run_case(case, acc):
+    if case.get('fam') == 'entry':
+        specs = [ENTRY_SPECS[case['spec']], ENTRY_OTHER]
+        acc.evals += 1
+        acc.traces += 2
+        acc.events += len(case['order']) + 2
+        acc.count('sources_entry_point_runs')
+        acc.outcomes.add(fast_hash(repr(case)))
+        return [viol('entry', 'sources-entry-point-source-%d-output-%s' % (k, kind), {'pipelines': specs, 'order': case['order'], 'expected': exp, 'observed': got, 'error': err}) for (k, kind, exp, got, err) in harness.sources_problems(specs, ENTRY_ITEMS, case['order'])][:1]
     fam = case['fam']
     if fam == 'raw':
         return run_raw(case, acc)
